@@ -216,7 +216,6 @@ def isGenName (x : String) : Bool :=
 /-! ### one site -/
 
 def errStr : Err → String
-  | .fuel => "fuel"
   | .unreachable m => "unreachable:" ++ m
   | .panic m => "panic:" ++ m
   | .nonExhaustiveInt _ => "non-exhaustive-int"
@@ -272,8 +271,9 @@ def mkSite : Site → SiteIn
 
 def runModel (S : Sig) (si : SiteIn) : M (DT Expr × Expr) :=
   match compileRows S (measure si.rows + 1) si.ty si.n0 si.rows with
-  | .error e => .error e
-  | .ok r =>
+  | none => .error (.unreachable "out of fuel")
+  | some (.error e) => .error e
+  | some (.ok r) =>
     let e := r.1.toExpr
     .ok (r.1, match si.wrapLet with | some s => .letE si.x s e | none => e)
 
